@@ -3,7 +3,7 @@ import Mathlib.Data.List.Nodup
 /-! C06, generic layer: the cache invariant split into its `p`-part (`POK`) and its `r`-part (`ROK`),
 the `r`-part "except on the path to node `i`" (`ROKx`), and the two recomputation passes:
 `updAll` establishes `ROK` outright, `updPath i` turns `ROKx i` into `ROK`. -/
-namespace PhyModel.Store
+namespace PhyModel.Store.C06
 open PhyModel
 
 /-! ### the invariant in parts -/
@@ -192,4 +192,4 @@ theorem cacheOKsf_updPath (dt : Data) (i : Nat) (f : SF) (hnd : f.idxs.Nodup) (h
     (hr : ROKx dt i f) : CacheOKsf dt (updPath dt i f).1 :=
   (cacheOKsf_iff dt _).2 ⟨POK_updPath dt i f hp, ROK_updPath dt i f hnd hr⟩
 
-end PhyModel.Store
+end PhyModel.Store.C06
